@@ -21,6 +21,7 @@ from debian._deb822_repro.tokens import (
     Deb822ValueContinuationToken, Deb822NewlineAfterValueToken, Deb822CommaToken,
     Deb822FieldNameToken, Deb822FieldSeparatorToken, Deb822ErrorToken,
     tokenize_deb822_file, comma_split_tokenizer, whitespace_split_tokenizer,
+    _split_lines_keepends,
 )
 from debian._deb822_repro._util import (combine_into_replacement, BufferingIterator,
                                         len_check_iterator,
@@ -537,7 +538,7 @@ class Deb822ParsedTokenList(Generic[VE, ST],
         else:
             text = self._generate_reformatted_field_content()
 
-        new_content = text.splitlines(keepends=True)
+        new_content = _split_lines_keepends(text)
 
         # As absurd as it might seem, it is easier to just use the parser to
         # construct the AST correctly
@@ -2036,7 +2037,7 @@ class Deb822ParagraphElement(Deb822Element, Deb822ParagraphToStrWrapperMixin, AB
             # If we already have the field, then preserve the original case
             cased_field_name = original.field_name
         raw = ":".join((cased_field_name, raw_string_value))
-        raw_lines = raw.splitlines(keepends=True)
+        raw_lines = _split_lines_keepends(raw)
         for i, line in enumerate(raw_lines, start=1):
             if not line.endswith("\n"):
                 raise ValueError("Line {i} in new value was missing trailing newline".format(i=i))
